@@ -929,7 +929,9 @@ class Ensemble(NamedItem):
             # NB. The calling code must be wrapped in a 'if __name__ == '__main__'
             # Currently not passing in any extra kwargs but that should be easy to add if/when required
             # (main reason for deferring implementation is so as to have suitable test code when developing)
-            self.samples = sc.parallelize(_sample_and_map, iterarg=n_samples, kwargs={"mapping_function": self.mapping_function, "max_attempts": max_attempts, "proj": proj, "parset": parset, "progset": progset, "progset_instructions": progset_instructions, "result_names": result_names})
+            # Workers inherit the parent's random state, so every sample needs its own seed - otherwise all workers produce the same samples
+            seeds = np.random.randint(0, 2**31 - n_samples) + np.arange(n_samples)
+            self.samples = sc.parallelize(_sample_and_map, iterkwargs={"seed": [int(x) for x in seeds]}, kwargs={"mapping_function": self.mapping_function, "max_attempts": max_attempts, "proj": proj, "parset": parset, "progset": progset, "progset_instructions": progset_instructions, "result_names": result_names})
         else:
             original_level = logger.getEffectiveLevel()
             logger.setLevel(logging.WARNING)  # Never print debug messages inside the sampling loop - note that depending on the platform, this may apply within `sc.parallelize`
@@ -1548,7 +1550,7 @@ class Ensemble(NamedItem):
         return figs
 
 
-def _sample_and_map(proj, parset, progset, progset_instructions, result_names, mapping_function, max_attempts, **kwargs):
+def _sample_and_map(proj, parset, progset, progset_instructions, result_names, mapping_function, max_attempts, seed=None, **kwargs):
     """
     Helper function to sample
 
@@ -1558,6 +1560,9 @@ def _sample_and_map(proj, parset, progset, progset_instructions, result_names, m
     (which is used for memory-constrained simulations)
 
     """
+
+    if seed is not None:
+        np.random.seed(seed)  # On a parallel worker, use the seed assigned to this sample
 
     # First, get a single sample (could have multiple results if multiple instructions)
     results = proj.run_sampled_sims(n_samples=1, parset=parset, progset=progset, progset_instructions=progset_instructions, result_names=result_names, max_attempts=max_attempts)
